@@ -110,6 +110,9 @@ FIRST_MISSED = {
     "C05-11": "no check reported it -> WIN-1: from the ACK send every way to the next iteration passes the advance of recvSeq (also on the ping leg)",
     "C09-11": "own property silent (reported by C10 GBNHS-1) -> C09 imports C10",
     "C15-12": "no check reported it -> RDC-2: the delegated bytes.Buffer of a Read method is never replaced as a whole and only Write/Read/Len/Cap are called on it",
+    "C10-12": "no check reported it -> GBNHS-3: the restart shortcut takes both a SYNACK and a DATA packet",
+    "C13-12": "own property silent (reported by C14 CHUNK-4, C01 WIN-1) -> C13 shares 'ping-not-delivered' as KA-3",
+    "C14-11": "no check reported it -> CHUNK-1: between a successful hand-off and the next one (or the success return) no error return is reachable",
     "C06-3": "no check reported it -> RATELIMIT: once lastResend is refreshed the packets are transmitted",
 }
 
